@@ -1411,7 +1411,7 @@ pub fn generate(out: &mut Out, tier: &str, seed: u64) {
     //     the sub-store's dataset, a removal inside the sub-store; saved again
     for rmode in 0..3 {
         for smode in 0..2 {
-            for v in 0..6 {
+            for v in 0..10 {
                 emit(&ctx, out, sub_family(v, rmode, smode));
             }
         }
@@ -1461,11 +1461,62 @@ fn sub_family(v: usize, rmode: i64, smode: i64) -> Sx {
         }
         3 => ops.push(l(vec![a(4), h(1)])), // removal inside the sub-store (cascades to the root annotation on it)
         4 => ops.push(l(vec![a(5), id(0), id(3), a(1)])), // remove_data in the sub-store's set
-        _ => {
+        5 => {
             ops.push(l(vec![a(0), a(2), a(3)])); // a new resource for the sub-store (late)
             ops.push(own(0, 2));
         }
+        _ => return sub_family_order(v, rmode, smode),
     }
+    l(vec![a(0), l(ops), l(vec![a(rmode), a(smode)])])
+}
+
+/// annotations handed to the sub-store in another order than they were made (the arrangement stays natural:
+/// all of them are the sub-store's before the root has any): 6 with public ids, a2 before a1 before a0;
+/// 7 without ids; 8 an older annotation moved in after newer ones, mixed ids; 9 moved from one sub-store to another
+fn sub_family_order(v: usize, rmode: i64, smode: i64) -> Sx {
+    let id = |t: i64| l(vec![a(0), a(t)]);
+    let h = |x: i64| l(vec![a(1), a(x)]);
+    let cb = |n: i64| l(vec![a(0), a(n)]);
+    let txt = |b: i64, e: i64| l(vec![a(0), id(0), cb(b), cb(e)]);
+    let own = |kind: i64, hd: i64, k: i64| l(vec![a(11), a(kind), a(hd), a(k)]);
+    let data = |key: i64, z: i64| l(vec![id(0), a(-1), id(key), l(vec![a(2), a(z)])]);
+    let with_ids = v == 6 || v == 9;
+    let aid = |t: i64| if with_ids || (v == 8 && t == 1) { a(t) } else { a(-1) };
+    let mut ops = vec![l(vec![a(10), a(0)])];
+    if v == 9 {
+        ops.push(l(vec![a(10), a(1)]));
+    }
+    ops.push(l(vec![a(0), a(0), a(8)]));
+    ops.push(own(0, 0, 0));
+    ops.push(l(vec![a(3), aid(0), txt(1, 4), l(vec![data(0, 1)])]));
+    ops.push(own(1, 0, 0));
+    ops.push(l(vec![a(3), aid(1), txt(2, 6), l(vec![data(1, 2)])]));
+    ops.push(l(vec![a(3), aid(2), l(vec![a(1), h(0)]), l(vec![])])); // on annotation 0
+    match v {
+        6 | 7 => {
+            ops.push(own(2, 2, 0));
+            ops.push(own(2, 1, 0));
+            ops.push(own(2, 0, 0));
+        }
+        8 => {
+            ops.push(own(2, 1, 0));
+            ops.push(own(2, 2, 0));
+            ops.push(l(vec![a(9)])); // saved while annotation 0 still is the root's
+            ops.push(own(2, 0, 0));
+        }
+        _ => {
+            // first all in sub-store 1 (in order), then moved to sub-store 0 in another order
+            ops.push(own(2, 0, 1));
+            ops.push(own(2, 1, 1));
+            ops.push(own(2, 2, 1));
+            ops.push(own(2, 1, 0));
+            ops.push(own(2, 2, 0));
+            ops.push(own(2, 0, 0));
+        }
+    }
+    ops.push(l(vec![a(0), a(1), a(5)])); // the root's resource and annotations
+    ops.push(l(vec![a(3), a(4), l(vec![a(0), id(1), cb(0), cb(2)]), l(vec![data(0, 1)])]));
+    ops.push(l(vec![a(3), a(-1), l(vec![a(1), h(1)]), l(vec![])]));
     l(vec![a(0), l(ops), l(vec![a(rmode), a(smode)])])
 }
 
@@ -1485,6 +1536,8 @@ fn gen_sub_history(rng: &mut Rng, late: bool) -> Sx {
     if late {
         phases.push(Some(0));
     }
+    let shuffle_handover = rng.chance(1, 2);
+    let mut pending: Vec<Sx> = Vec::new();
     for (pi, owner) in phases.iter().enumerate() {
         let n = if late && pi + 1 == phases.len() { 1 + rng.below(2) } else { 1 + rng.below(cfg.max_ops) };
         for _ in 0..n {
@@ -1496,19 +1549,30 @@ fn gen_sub_history(rng: &mut Rng, late: bool) -> Sx {
                 break;
             }
             if let Some(k) = owner {
+                let mut hand: Vec<Sx> = Vec::new();
                 for h in nr..store.resources_len() {
-                    ops.push(l(vec![a(11), a(0), a(h as i64), a(*k as i64)]));
+                    hand.push(l(vec![a(11), a(0), a(h as i64), a(*k as i64)]));
                 }
                 for h in ns..store.datasets_len() {
-                    ops.push(l(vec![a(11), a(1), a(h as i64), a(*k as i64)]));
+                    hand.push(l(vec![a(11), a(1), a(h as i64), a(*k as i64)]));
                 }
                 for h in na..store.annotations_len() {
-                    ops.push(l(vec![a(11), a(2), a(h as i64), a(*k as i64)]));
+                    hand.push(l(vec![a(11), a(2), a(h as i64), a(*k as i64)]));
+                }
+                if shuffle_handover {
+                    pending.extend(hand);
+                } else {
+                    ops.extend(hand);
                 }
             }
             if rng.chance(1, 8) {
                 ops.push(l(vec![a(9)]));
             }
+        }
+        // items kept back are handed to the sub-store now, in another order than they were made
+        while !pending.is_empty() {
+            let i = rng.below(pending.len());
+            ops.push(pending.remove(i));
         }
         if rng.chance(1, 3) {
             ops.push(l(vec![a(9)]));
@@ -1704,5 +1768,5 @@ fn family(kind: usize, m: i64, ids: bool, gap: bool, so: usize) -> Sx {
     l(vec![a(1), l(vec![if ids { t("store") } else { a(-1) }, l(ress), l(sets), l(anns)])])
 }
 
-pub const RULE: &str = "(1) an exhaustive family of 432 literal stores: 9 selector kinds (text, annotation, annotation with offset, resource, dataset, key, data, multi, composite/directional) x 4 alignments x with/without public identifiers x with/without removed slots (annotation, key, data) x inline / stand-off txt / stand-off json; (2) seeded random literal stores: 1-3 resources with texts over an alphabet with quote, backslash, control characters, DEL, non-BMP and U+FFFF/U+10FFFF/U+2028, identifiers over the same alphabet, 0-2 datasets with keys, data with and without identifiers, values of all seven types (integer extremes, floats on the 1/1000 grid, nested lists to depth 2, datetimes with offsets and nanoseconds), up to 6 annotations over all selector kinds and alignments incl. offsets relative to annotations and complex selectors, removed slots of every item type, stand-off resources (txt, json, identifier = file name) and datasets; (3) save/modify/save families (14 kinds of modification x resource inline/txt/json x dataset inline/stand-off x once/twice) and an exhaustive small scope: a fixed prefix (resource, annotation with id and data, id-less annotation in mixed alignment) followed by EVERY sequence of 2 (thorough: 3) operations from an alphabet of 22 (all selector kinds, alignments, relative offsets, complex selectors, removals of every kind, save); (3a) exports of copies between modification and save (to_txt_file / to_json_file of a resource, to_json_file of a dataset or of the store document, to backup/ under the member's own file name or another name; 192 requests, and sprinkled over the random histories); (4) histories with one or two sub-stores (family of 36 + random, natural arrangement and late additions), (5) the final stores of seeded random histories of the shared store generator (all operations incl. removals with cascades, ids and handles, invalid references, range compression) inline and with stand-off members. Each store is written as STAM JSON pretty and compact, both outputs are parsed into trees and compared with the model's documents, the stand-off files likewise; the store is loaded again from the string and from a file, observed again (canonical observation by names, slot layout, every reverse lookup and id resolution by name), written again (bytes equal), saved with save(). One evaluation = one compared sub-case (8 per store).";
+pub const RULE: &str = "(1) an exhaustive family of 432 literal stores: 9 selector kinds (text, annotation, annotation with offset, resource, dataset, key, data, multi, composite/directional) x 4 alignments x with/without public identifiers x with/without removed slots (annotation, key, data) x inline / stand-off txt / stand-off json; (2) seeded random literal stores: 1-3 resources with texts over an alphabet with quote, backslash, control characters, DEL, non-BMP and U+FFFF/U+10FFFF/U+2028, identifiers over the same alphabet, 0-2 datasets with keys, data with and without identifiers, values of all seven types (integer extremes, floats on the 1/1000 grid, nested lists to depth 2, datetimes with offsets and nanoseconds), up to 6 annotations over all selector kinds and alignments incl. offsets relative to annotations and complex selectors, removed slots of every item type, stand-off resources (txt, json, identifier = file name) and datasets; (3) save/modify/save families (14 kinds of modification x resource inline/txt/json x dataset inline/stand-off x once/twice) and an exhaustive small scope: a fixed prefix (resource, annotation with id and data, id-less annotation in mixed alignment) followed by EVERY sequence of 2 (thorough: 3) operations from an alphabet of 22 (all selector kinds, alignments, relative offsets, complex selectors, removals of every kind, save); (3a) exports of copies between modification and save (to_txt_file / to_json_file of a resource, to_json_file of a dataset or of the store document, to backup/ under the member's own file name or another name; 192 requests, and sprinkled over the random histories); (4) histories with one or two sub-stores (family of 60 + random, natural arrangement and late additions; annotations handed to a sub-store in another order than they were made, with and without public ids, moved between sub-stores), (5) the final stores of seeded random histories of the shared store generator (all operations incl. removals with cascades, ids and handles, invalid references, range compression) inline and with stand-off members. Each store is written as STAM JSON pretty and compact, both outputs are parsed into trees and compared with the model's documents, the stand-off files likewise; the store is loaded again from the string and from a file, observed again (canonical observation by names, slot layout, every reverse lookup and id resolution by name), written again (bytes equal), saved with save(). One evaluation = one compared sub-case (8 per store).";
 pub const EXHAUSTIVE: bool = false;
